@@ -6,12 +6,6 @@ import GscribModel.Lemmas.BuilderInterlock
 emergency sequence `M05 M09 ; M00` issued with the tool running is (correctly) safe. -/
 open GscribModel.Builder
 
-theorem Flags.safeSeq_append (f : Flags) (xs ys : List Stmt) :
-    f.safeSeq (xs ++ ys) = (f.safeSeq xs && (xs.foldl Flags.exec f).safeSeq ys) := by
-  induction xs generalizing f with
-  | nil => simp [Flags.safeSeq]
-  | cons x xs ih => simp [Flags.safeSeq, ih, Bool.and_assoc]
-
 /-- **One call**: whatever the builder state and the call, every statement it writes is safe for a
     controller whose flags are what the builder reports — no `M03/M04` with the tool running, no
     `M07/M08` with coolant on, no `M06` or halt/wait code with either active — and afterwards the
